@@ -809,3 +809,68 @@ def run_vm_sizes(rec, F):
             if not ok:
                 rec.finding(R, "F9.size/%s/%s" % (fn.name, fmt_origin(o)), "%s casts a program-supplied number to a size with no upper-bound test (integrality tested: %s): a huge value makes the host allocation panic ('capacity overflow') or abort" % (fn.name, fract), loc=loc_of(s["sp"]), fn=fn.path)
     rec.floor(R, "number-to-size casts in handlers", n, 1)
+
+
+def run_bounds_checks(rec, F):
+    """every run-time bounds check in the standard library is discharged by a test against the container's current length"""
+    R = rec.rule("F9.bounds", "natives and library iterators index lists/tuples with values that come from a program or from earlier calls: every such index (a MIR BoundsCheck with a non-constant index) is dominated by `index < <that container>.len()` evaluated in the same call, or is the Ok result of a helper whose every Ok is itself guarded by the container's len(). A length remembered from an earlier call does not count: the program can shrink the list in between (for x in l { l.pop(); })")
+    n = 0
+    helpers = {}
+
+    def helper_ok(path):
+        if path in helpers:
+            return helpers[path]
+        h = F.fn(path)
+        ok = False
+        if h is not None:
+            oks = [bi for bi, si, s in h.stmts() if s["r"]["k"] == "agg" and s["r"].get("adt", "").endswith("Result::Ok")]
+            ok = bool(oks)
+            for bi in oks:
+                gs = sem.dominating_guards(F, h, bi)
+                if not any(g[1][0] == "bin" and g[1][1] in ("Lt", "Le", "Gt", "Ge") and "'len'" in str(g[1]) for g in gs):
+                    ok = False
+        helpers[path] = ok
+        return ok
+    for fn in F.all_fns():
+        if fn.crate != "laythe_lib" or "::test" in fn.path:
+            continue
+        for bi, b in enumerate(fn.blocks):
+            t = b["t"]
+            if bi not in fn.reachable or t["k"] != "assert" or "BoundsCheck" not in t.get("msg", ""):
+                continue
+            m = re.search(r"index: (?:copy|move) _(\d+)", t["msg"])
+            if not m:
+                continue   # constant index: args[k], decided by F9.a against the declared arity
+            il = int(m.group(1))
+            idx = sem.desc_operand(fn, {"copy": {"l": il, "p": []}})
+            if idx[0] in ("const", "constdbg", "constpath"):
+                continue   # args[k]
+            n += 1
+            who = re.sub(r"^<.*::(\w+) as .*>::(\w+)$", r"\1::\2", fn.path) if " as " in fn.path else fn.name
+            ok = False
+            why = ""
+            # (b) validated by a helper
+            ds = str(idx)
+            mh = re.match(r"\('field', \('call', '(\w+)',", ds)
+            if mh:
+                r = fn.root_of({"copy": {"l": il, "p": []}})
+                callee = None
+                # find the call that produced the Result the index was taken from
+                for bj, tt in fn.calls():
+                    if lastseg(tt["f"]) == mh.group(1):
+                        callee = tt["f"]
+                if callee and helper_ok(callee):
+                    ok, why = True, "Ok(%s(..))" % mh.group(1)
+            # (a) a dominating comparison with a fresh len() of the indexed container
+            if not ok:
+                for w, d, outc in sem.dominating_guards(F, fn, bi):
+                    if d[0] != "bin" or d[1] not in ("Lt", "Le", "Gt", "Ge"):
+                        continue
+                    lhs, rhs = d[2], d[3]
+                    for a_, b_, op_true in ((lhs, rhs, d[1] == "Lt"), (rhs, lhs, d[1] == "Gt")):
+                        if str(a_) == str(idx) and b_[0] == "call" and b_[1] == "len" and outc is op_true:
+                            ok, why = True, "index < len()"
+            rec.inst(R, "%s: %s" % (who, why or "unguarded"), ok=ok, loc=loc_of(t["sp"]))
+            if not ok:
+                rec.finding(R, "F9.bounds/%s" % who, "%s indexes a list/tuple with a value that is not tested against that container's current len() in the same call (index: %s): when the program has shrunk the container since the length was taken, the host panics with 'index out of bounds'" % (who, str(idx)[:70]), loc=loc_of(t["sp"]), fn=fn.path)
+    rec.floor(R, "non-constant bounds checks in the standard library", n, 4)
